@@ -16,7 +16,11 @@ pub fn run(sh: &mut Shell, cl: &CommandLine, cmd: &Command,
         return cr;
     }
 
+    // run_script() switches `set -e` off when the file ends (it is meant
+    // for a whole script); the caller's own setting must survive a `source`.
+    let exit_on_error = sh.exit_on_error;
     let status = scripting::run_script(sh, &args);
+    sh.exit_on_error = exit_on_error;
     cr.status = status;
     cr
 }
